@@ -2,6 +2,9 @@ import GenjaxModel.Proofs.GfiCohInv
 import GenjaxModel.Proofs.GfiAssess
 import GenjaxModel.Proofs.GfiWeight
 import GenjaxModel.Proofs.GfiAssessCond
+import GenjaxModel.Proofs.GfiValues
+import GenjaxModel.Proofs.GfiGenSum  -- (c01law block at the end of this file)
+import GenjaxModel.Proofs.GfiGenTie  -- (c01law block at the end of this file)
 /-!
 # C02 — generate honours constraints and returns the proper importance weight
 (theorems about `GF.generate`, every program / constraint map / argument list / variant `cfg`)
@@ -60,3 +63,287 @@ example : ∃ t w x', condExG.generate condExP Cfg.asis
   ⟨_, _, _, rfl, rfl, rfl, rfl⟩
 
 end Genjax
+
+/-! # ===================== c01law: `generate` IS PROPERLY WEIGHTED =====================
+  (appended block; model `Model/GfiDist.lean`, proofs `Proofs/GfiGenLaw.lean`,
+  `Proofs/GfiGenSum.lean`)
+
+  C02's "the importance weight is unbiased for the marginal likelihood of the constraints".
+  `GF.generateD pd P cfg g x args` is `GF.generate` with every UNCONSTRAINED Distribution site drawing
+  from its finite-support distribution and every constrained site contributing its mass to the
+  weight (linear domain: the weight is the product of the masses of the constrained sites, i.e.
+  `exp` of the log weight `GF.generate` returns).  `Tr.agS t x` / `CM.agreeWith y x` are the 1/0
+  indicators "the trace `t` / the complete choice map `y` takes the constrained value at every site
+  the constraint map `x` addresses" (`y` is a completion of `x`).
+  All theorems of this block are `_partial`: Cond-free programs (a Cond evaluates `generate` on BOTH
+  branches under the same constraints, so the hidden branch is not drawn from the program's own
+  distribution; not formalised).  `g.vmapOK cfg`: every Vmap accepts an empty constraint in variant
+  `cfg` (always true for `Cfg.spec`; for `Cfg.asis` it requires Vmaps without mapped arguments,
+  cf. `C02_vmap_generate_none_asis`). -/
+namespace Genjax
+open Smc Smc.FinDist
+
+section C02Law
+variable {K : Type} [Field K] {R : Type} [AddCommGroup R] (pd : PD K) (P : Prims R) (cfg : Cfg)
+
+/-- **Proper weighting** (`_partial`: Cond-free).  For every constraint map `ox` (none, partial,
+    full; a map of the wrong kind makes `generate` raise and no trace agree: both sides 0), every
+    argument list and every test function `φ` of the trace:
+    `E_{(t,w) ∼ generate}[w·φ(t)] = E_{t ∼ simulate}[1{t agrees with the constraints}·φ(t)]`.
+    Missing for the full statement: programs with Cond. -/
+theorem C02_generate_proper_weight_partial (hpd : pd.WF) (g : GF) (hcf : g.condFree = true)
+    (hv : g.vmapOK cfg = true) (ox : Option CM) (args : List Val) (φ : Tr R → K) :
+    E (g.generateD pd P cfg ox args) (optK fun tw => tw.2 * φ tw.1)
+      = E (g.simD pd P args) (optK fun t => t.agT ox * φ t) :=
+  generateD_law pd P cfg hpd g hcf hv ox args φ
+
+/-- **E[weight] = marginal likelihood of the constraints** (`_partial`: Cond-free): the expected
+    importance weight is the probability, under the program's own distribution (`simD`, whose law is
+    the density `assess` computes, `C01_simulate_law`), that the trace takes the constrained values.
+    Runs on which `generate` raises count 0 on the left; `simulate` raises on the same programs. -/
+theorem C02_generate_unbiased_partial (hpd : pd.WF) (g : GF) (hcf : g.condFree = true)
+    (hv : g.vmapOK cfg = true) (x : CM) (args : List Val) :
+    E (g.generateD pd P cfg (some x) args) (optK fun tw => tw.2)
+      = E (g.simD pd P args) (optK fun t => t.agS x) := by
+  have := generateD_law pd P cfg hpd g hcf hv (some x) args (fun _ => 1)
+  simpa only [mul_one, Tr.agT] using this
+
+/-- each complete choice map `y` of the program's shape contributes to that marginal likelihood
+    its density `assessP y` if it is a completion of `x`, and nothing otherwise -/
+theorem C02_completion_mass_partial (hpd : pd.WF) (g : GF) (hcf : g.condFree = true) (x y : CM)
+    (args : List Val) (hs : g.skel = some y.skel) :
+    E (g.simD pd P args) (optK fun t => if t.choices = some y then t.agS x else 0)
+      = if y.agreeWith x then pmassOf (g.assessP pd y args) else 0 :=
+  simD_agree_pointwise pd P hpd g hcf x y args hs
+
+/-- **E[weight] = Σ over the completions `y ⊇ x` of `assessP y`** (`_partial`: Cond-free), for any
+    list `ys` of distinct choice maps of the program's shape containing every choice map `simulate`
+    can produce (`coversB` is an executable check of that). -/
+theorem C02_generate_unbiased_sum_partial (hpd : pd.WF) (g : GF) (hcf : g.condFree = true)
+    (hv : g.vmapOK cfg = true) (x : CM) (args : List Val) (ys : List CM) (hnd : ys.Nodup)
+    (hcov : ∀ t, some t ∈ supp (g.simD pd P args) → ∃ y ∈ ys, t.choices = some y)
+    (hshape : ∀ y ∈ ys, g.skel = some y.skel) :
+    E (g.generateD pd P cfg (some x) args) (optK fun tw => tw.2)
+      = sumK (ys.map fun y => if y.agreeWith x then pmassOf (g.assessP pd y args) else 0) :=
+  generateD_unbiased_sum pd P cfg hpd g hcf hv x args ys hnd hcov hshape
+
+/-- proper weighting outcome by outcome (`_partial`: Cond-free): for every complete choice map `y`
+    of the program's shape, `E[w · 1{choices = y}]` is `assessP y` if `y` is a completion of the
+    constraints and 0 otherwise (`agO none y = 1`, `agO (some x) y = 1{y.agreeWith x}`) -/
+theorem C02_generate_pointwise_partial (hpd : pd.WF) (g : GF) (hcf : g.condFree = true)
+    (hv : g.vmapOK cfg = true) (ox : Option CM) (args : List Val) (y : CM)
+    (hs : g.skel = some y.skel) :
+    E (g.generateD pd P cfg ox args) (optK fun tw => if tw.1.choices = some y then tw.2 else 0)
+      = agO ox y * pmassOf (g.assessP pd y args) := by
+  have := generateD_pointwise pd P cfg hpd g hcf hv ox args y (fun _ => 1) hs
+  rw [massOf_one] at this
+  rw [← this]
+  congr 2
+  funext tw
+  simp only [choicesAre, mul_ite, mul_one, mul_zero]
+
+/-- nothing constrained: the weight is 1 on every run (linear-domain form of
+    `C02_generate_none_weight`), as an expectation against any `φ` -/
+theorem C02_generateD_none_partial (hpd : pd.WF) (g : GF) (hcf : g.condFree = true)
+    (hv : g.vmapOK cfg = true) (args : List Val) (φ : Tr R → K) :
+    E (g.generateD pd P cfg none args) (optK fun tw => tw.2 * φ tw.1)
+      = E (g.simD pd P args) (optK φ) := by
+  have := generateD_law pd P cfg hpd g hcf hv none args φ
+  simpa only [Tr.agT, one_mul] using this
+
+end C02Law
+
+/-- TIE of the distribution-valued `generateD` to the executable `GF.generate` (EVERY program,
+    Cond included, every constraint map, every variant `cfg`): when each primitive has the one-point
+    support `[P.draw d a]` and the masses are the exponentials of the log densities
+    (`e 0 = 1`, `e (a + b) = e a · e b`, `pm = e ∘ lp`), `generateD` has a single outcome — the
+    trace `GF.generate` returns with the weight `e (log weight)`, or "raises" when it raises. -/
+theorem C02_generateD_point {K : Type} [Field K] {R : Type} [Zero R] [Add R] [Neg R]
+    (e : R → K) (he0 : e 0 = 1) (hadd : ∀ a b, e (a + b) = e a * e b) (pd : PD K) (P : Prims R)
+    (cfg : Cfg) (hsupp : ∀ d a, pd.support d a = [P.draw d a])
+    (hpm : ∀ d a v, pd.pm d a v = e (P.lp d a v)) (g : GF) (ox : Option CM) (args : List Val) :
+    ∃ q, g.generateD pd P cfg ox args
+      = [((g.generate P cfg ox args).map fun tw => (tw.1, e tw.2), q)] :=
+  generateD_point e he0 hadd pd P cfg hsupp hpm g ox args
+
+/-- non-vacuity of the tie: the integer log densities of `condExP`, base-2 exponential -/
+example : ∃ (e : ℤ → ℚ) (pd : PD ℚ), e 0 = 1 ∧ (∀ a b, e (a + b) = e a * e b) ∧
+    (∀ d a, pd.support d a = [condExP.draw d a]) ∧ (∀ d a v, pd.pm d a v = e (condExP.lp d a v)) :=
+  ⟨fun n => (2 : ℚ) ^ n, ⟨fun d a => [condExP.draw d a], fun d a v => (2 : ℚ) ^ (condExP.lp d a v)⟩,
+    by simp, fun a b => zpow_add₀ (by norm_num) a b, fun _ _ => rfl, fun _ _ _ => rfl⟩
+
+/-! ### non-vacuity (exact rationals; the instances of `Proofs/GfiLawMain.lean`) -/
+
+/-- the four complete choice maps of `lawExG` -/
+def lawExYs : List CM := [lawExX 0 0, lawExX 0 1, lawExX 1 0, lawExX 1 1]
+
+/-- two dependent sites, `y` constrained to 1, `x` free: all hypotheses of
+    `C02_generate_unbiased_sum_partial`, and both sides computed:
+    `E[w] = P(y = 1) = 2/3·1/4 + 1/3·3/4 = 5/12` -/
+example : lawExPD.WF ∧ lawExG.condFree = true ∧ lawExG.vmapOK Cfg.asis = true ∧ lawExYs.Nodup ∧
+    (∀ t, some t ∈ supp (lawExG.simD lawExPD lawExP [.num 0]) → ∃ y ∈ lawExYs, t.choices = some y) ∧
+    (∀ y ∈ lawExYs, lawExG.skel = some y.skel) ∧
+    E (lawExG.generateD lawExPD lawExP Cfg.asis
+        (some (.node (.cons "y" (.leaf (.num 1)) .nil))) [.num 0]) (optK fun tw => tw.2) = 5/12 ∧
+    sumK (lawExYs.map fun y => if y.agreeWith (.node (.cons "y" (.leaf (.num 1)) .nil))
+        then pmassOf (lawExG.assessP lawExPD y [.num 0]) else 0) = 5/12 := by
+  refine ⟨lawExPD_wf, by decide +kernel, by decide +kernel, by decide +kernel,
+    covers_of_coversB _ _ (by decide +kernel), by decide +kernel, by decide +kernel,
+    by decide +kernel⟩
+
+/-- Scan of a Fn calling a Vmap, specification variant: step 1 unconstrained (empty dict — the
+    Vmap sub-call gets no constraint), step 2 fully constrained; both sides of
+    `C02_generate_unbiased_partial` computed -/
+example : lawExScan.condFree = true ∧ lawExScan.vmapOK Cfg.spec = true ∧
+    E (lawExScan.generateD lawExPD lawExP Cfg.spec
+        (some (.lanes (.cons "" (.node .nil) (.cons "" (lawExLane 1 1) .nil)))) lawExScanArgs)
+      (optK fun tw => tw.2) = 275/1024 ∧
+    E (lawExScan.simD lawExPD lawExP lawExScanArgs)
+      (optK fun t => t.agS (.lanes (.cons "" (.node .nil) (.cons "" (lawExLane 1 1) .nil))))
+      = 275/1024 := by
+  refine ⟨by decide +kernel, by decide +kernel, by decide +kernel, by decide +kernel⟩
+
+/-- the same constraint under the code as it is: `generate` raises on every run (the guard
+    `vmapOK` fails: the Vmap has a mapped argument), expected weight 0 -/
+example : lawExScan.vmapOK Cfg.asis = false ∧
+    E (lawExScan.generateD lawExPD lawExP Cfg.asis
+        (some (.lanes (.cons "" (.node .nil) (.cons "" (lawExLane 1 1) .nil)))) lawExScanArgs)
+      (optK fun tw => tw.2) = 0 := by
+  refine ⟨by decide +kernel, by decide +kernel⟩
+
+/-- fully constrained (code as it is): the weight is the density of the constraint map,
+    `1/4 · 5/8 · 1/2 · 5/8` -/
+example :
+    E (lawExScan.generateD lawExPD lawExP Cfg.asis (some (lawExScanX 1 0 1 1)) lawExScanArgs)
+      (optK fun tw => tw.2) = 25/512 ∧
+    pmassOf (lawExScan.assessP lawExPD (lawExScanX 1 0 1 1) lawExScanArgs) = 25/512 := by
+  refine ⟨by decide +kernel, by decide +kernel⟩
+
+/-! ### programs with Cond (not covered by the `_partial` theorems above) -/
+
+/-- evidence (one instance, computed) that proper weighting extends to a Cond whose branches have
+    the same shape: `lawExCond`, constraint `{x: 1}`, false branch selected (three-valued
+    primitive): `E[w] = 1/3 = P(x = 1)` -/
+example :
+    E (lawExCond.generateD lawExPD lawExP Cfg.asis
+        (some (.node (.cons "x" (.leaf (.num 1)) .nil))) [.num 0]) (optK fun tw => tw.2) = 1/3 ∧
+    E (lawExCond.simD lawExPD lawExP [.num 0])
+      (optK fun t => t.agS (.node (.cons "x" (.leaf (.num 1)) .nil))) = 1/3 := by
+  refine ⟨by decide +kernel, by decide +kernel⟩
+
+/-- For a Cond whose branches have DIFFERENT shapes the weight is NOT unbiased for the marginal
+    likelihood of the constraints under the distribution of the choice map `simulate` exposes.
+    `lawExCondBad = cond(c, {x ~ coin}, {x ~ coin; y ~ coin})`, true branch selected, constraint
+    `{y: 1}`: the selected branch has no site `y`, so `generate` returns weight 1 on every run
+    (`E[w] = 1`), while the merged choice map of a simulated trace has `y = 1` with probability `1/2`
+    (`y` is drawn by the hidden branch).  `generate` is consistent with `assess` (which ignores `y`
+    here), not with the distribution of the merged choice map — the same discrepancy as
+    `C01_simulate_law_fails_on_mixed_cond`. -/
+theorem C02_generate_biased_on_mixed_cond :
+    E (lawExCondBad.generateD lawExPD lawExP Cfg.asis
+        (some (.node (.cons "y" (.leaf (.num 1)) .nil))) [.num 1]) (optK fun tw => tw.2) = 1 ∧
+    E (lawExCondBad.simD lawExPD lawExP [.num 1])
+      (optK fun t => match t.choices with
+        | some y => if y.agreeWith (.node (.cons "y" (.leaf (.num 1)) .nil)) then 1 else 0
+        | none => 0) = 1/2 := by
+  refine ⟨by decide +kernel, by decide +kernel⟩
+
+end Genjax
+
+/-! ==============================================================================================
+    BEGIN work package `gfivalues`: the VALUES held by the generated trace
+    (helper lemmas: Model/GfiPaths.lean, Proofs/GfiValues*.lean; notation as in Props/C03.lean).
+    ============================================================================================== -/
+namespace Genjax
+variable {R : Type} [AddCommGroup R] (P : Prims R) (cfg : Cfg)
+
+/-- Every constrained address that exists in the generated trace's choice map holds the constrained
+    value — EVERY program (dist, fn, vmap, scan, cond at any depth: a constraint is handed to both
+    branches of a Cond, so whichever is visible holds it), every arguments, every `cfg`. -/
+theorem C02_generate_keeps_constraints (g : GF) (x : Option CM) (args : List Val) (t : Tr R) (w : R)
+    (h : g.generate P cfg x args = some (t, w)) (y : CM) (hy : t.choices = some y)
+    (p : Path) (v : Val) (hv : CM.leafAt? x p = some v) (v' : Val) (hv' : y.leafAt p = some v') :
+    v' = v :=
+  generate_keeps_constraints P cfg g x args t w h y hy p v hv v' hv'
+
+/-- non-vacuity on `condExDeep`: constraints inside the Scan of a Cond and inside the Vmap of a Cond
+    of a Cond (`genScen_spec`: generate is defined, `s.2.2` is the choice map) -/
+example : ∃ s, genScen condExP Cfg.spec condExDeep (some valExX) condExDeepArgs = some s ∧
+    (decide (CM.leafAt? (some valExX) valExPc = some (.num 10)) &&
+     decide (s.2.2.leafAt valExPc = some (.num 10)) &&
+     decide (CM.leafAt? (some valExX) valExPc' = some (.num 20)) &&
+     decide (s.2.2.leafAt valExPc' = some (.num 20))) = true :=
+  (Option.any_eq_true _ _).mp (by decide +kernel)
+
+/-- Every value of the generated trace's choice map at an address the constraint does NOT mention is
+    the sampler's draw `P.draw d params` for the Distribution `d` at that address and the parameters
+    `params` the program computes from the trace's own values (`GF.siteAt`, threaded as `GF.Coh`
+    threads them) — a draw from the conditional prior given the values it depends on.
+    EVERY program — Cond at any depth included, so this is the full statement, not the Cond-free
+    `C02_generate_unconstrained_are_draws_partial` that was asked for —, every constraint map (none,
+    partial, whole sub-calls missing), arguments, `cfg`. -/
+theorem C02_generate_unconstrained_are_draws (g : GF) (x : Option CM) (args : List Val) (t : Tr R)
+    (w : R) (h : g.generate P cfg x args = some (t, w)) (y : CM) (hy : t.choices = some y)
+    (p : Path) (hx : CM.leafAt? x p = none) (v : Val) (hv : y.leafAt p = some v) :
+    ∃ d0 ps, g.siteAt args t p = some (d0, ps) ∧ v = P.draw d0 ps :=
+  generate_unconstrained_are_draws P cfg g x args t w h y hy p hx v hv
+
+/-- the same for `simulate` (which `generate` without constraints is): every value is a draw -/
+theorem C02_simulate_values_are_draws (g : GF) (args : List Val) (t : Tr R)
+    (h : g.simulate P args = some t) (y : CM) (hy : t.choices = some y) (p : Path) (v : Val)
+    (hv : y.leafAt p = some v) : ∃ d0 ps, g.siteAt args t p = some (d0, ps) ∧ v = P.draw d0 ps :=
+  simulate_are_draws P g args t h y hy p v hv
+
+/-- If the constraint map `x` has every address of the generated trace's choice map `y`
+    (`CM.Shape y x`: every dictionary key of `y`, at every depth, is bound in `x`; vectorised maps
+    have the same number of lanes), the weight is exactly the log density `assess` returns on `y`
+    (and `assess` returns the trace's return value): generate with a full constraint IS assess.
+    Every program (Cond at any depth), arguments, `cfg`. -/
+theorem C02_generate_full_weight (g : GF) (x : CM) (args : List Val) (t : Tr R) (w : R)
+    (h : g.generate P cfg (some x) args = some (t, w)) (y : CM) (hy : t.choices = some y)
+    (hcov : CM.Shape y x) : g.assess P y args = some (w, t.retval) :=
+  generate_full_weight P cfg g x args t w h y hy hcov
+
+/-- the same with coverage stated on the program's static skeleton: `x` binds every address of the
+    program (`g.skel = some sk`, `CM.Shape sk x`) -/
+theorem C02_generate_full_weight_skel (g : GF) (sk : CM) (hsk : g.skel = some sk)
+    (x : CM) (hcov : CM.Shape sk x) (args : List Val) (t : Tr R) (w : R)
+    (h : g.generate P cfg (some x) args = some (t, w)) :
+    ∃ y, t.choices = some y ∧ g.assess P y args = some (w, t.retval) :=
+  generate_full_weight_skel P cfg g sk hsk x hcov args t w h
+
+/-- non-vacuity of `C02_generate_unconstrained_are_draws` on `condExDeep` with a sampler that depends
+    on its arguments: the unconstrained `s/2/x` (inside the Scan of a Cond) is Distribution 1 with
+    parameter 9 (the carry) and holds its draw 13; `v/1/x` is Distribution 1 with parameter 52 -/
+example : ∃ s, genScen valExP Cfg.spec condExDeep (some valExX) condExDeepArgs = some s ∧
+    (decide (CM.leafAt? (some valExX) [.key "s", .idx 2, .key "x"] = none) &&
+     decide (s.2.2.leafAt [.key "s", .idx 2, .key "x"] = some (.num 13)) &&
+     decide (condExDeep.siteAt condExDeepArgs s.1 [.key "s", .idx 2, .key "x"]
+       = some (1, [.num 9])) &&
+     decide (valExP.draw 1 [.num 9] = .num 13) &&
+     decide (s.2.2.leafAt [.key "v", .idx 1, .key "x"] = some (.num 56)) &&
+     decide (condExDeep.siteAt condExDeepArgs s.1 [.key "v", .idx 1, .key "x"]
+       = some (1, [.num 52]))) = true :=
+  (Option.any_eq_true _ _).mp (by decide +kernel)
+
+/-- non-vacuity of `C02_generate_full_weight` / `_skel`: generating `condExDeep` under OTHER arguments
+    with that full constraint is defined, the constraint covers the skeleton, and the weight 75 is
+    what `assess` returns -/
+example : ∃ x, fullExX = some x ∧ ∃ s, genScen condExP Cfg.spec condExDeep (some x) valExArgs = some s ∧
+    (decide (s.2.1 = 75) &&
+     decide ((condExDeep.assess condExP s.2.2 valExArgs).map (·.1) = some 75) &&
+     decide (x.skel = s.2.2.skel) && decide (condExDeep.skel = some x.skel)) = true := by
+  have h : (fullExX.any fun x =>
+      (genScen condExP Cfg.spec condExDeep (some x) valExArgs).any fun s =>
+        (decide (s.2.1 = 75) &&
+         decide ((condExDeep.assess condExP s.2.2 valExArgs).map (·.1) = some 75) &&
+         decide (x.skel = s.2.2.skel) && decide (condExDeep.skel = some x.skel))) = true := by
+    decide +kernel
+  obtain ⟨x, hx, h2⟩ := (Option.any_eq_true _ _).mp h
+  exact ⟨x, hx, (Option.any_eq_true _ _).mp h2⟩
+
+end Genjax
+/-! ==============================================================================================
+    END work package `gfivalues`
+    ============================================================================================== -/
+
